@@ -64,6 +64,17 @@ PROPS = {
         "components_real": ["helpers::transport::stream::{input::{BufDeque, RecordsStream, LengthDelimitedStream}, buffered::BufferedBytesStream}"],
         "components_stubbed": ["network body -> harness plan stream (chunks, empty chunks, Pending, injected error)"],
     },
+    "C19": {
+        "level": "exploration",
+        "rule": "run = seeded (shards in {1,2,3,5}, per-shard input lengths 0..200 incl. empty shards, picker in {table, all-to-one, round-robin, all-stay, skewed, PRSS}, "
+                "API in {reshard_iter, reshard_try_stream, reshard_aad}, size-hint slack, Pending plan, optional failing/over-long input on one node, gateway knobs, policy); "
+                "non-trivial iff >=1 multi-choice decision and >=1 record; distinct by (shape, schedule digest)",
+        "scenarios": [
+            {"name": "c19_reshard", "quick": 6000, "thorough": 300000, "offset": 1, "chunk": 200},
+        ],
+        "expected_probes": ["empty_input_shards", "input_faults"],
+        "components_real": ["protocol::context::{reshard_iter, reshard_stream, reshard_try_stream}, query::runner::reshard_tag::reshard_aad, Gateway shard channels, in-memory shard transport, TestWorld<WithShards<S>>"],
+    },
     "C14": {
         "level": "exploration",
         "rule": "run = seeded (message size, capacity, read size, record count, writer/receiver task layout, chunking, policy); "
@@ -87,6 +98,12 @@ NOT_APPLICABLE = {
 }
 
 MANIFEST_TEXT = {
+    "C19": {
+        "text": "Seeded exploration of the real resharding family on 3 helpers x {1,2,3,5} shards under a controlled scheduler: every helper/shard node is a task, the cross-shard exchange timing is decided by the seed, inputs have unique attributable records. Oracle computed from inputs and picks alone: each shard ends with exactly [from shard 0][from shard 1].. in origin input order, identical on the three helpers (multiset conservation for PRSS picks), no deadlock (unused channels closed); a failing or over-long input stream on a node makes that node return Err and no node of that helper returns Ok with a partial table. Sampling, not proof.",
+        "design_ref": "DESIGN.md section 4, C19",
+        "note": "when one shard's input fails the sibling shards of that helper block forever (no close is sent); that is counted as 'operation failed', as the statement allows",
+        "technique": "deterministic simulation: seeded schedule + input-fault search over the real reshard code on a sharded in-memory world",
+    },
     "C17": {
         "text": "Fault enumeration at the I/O seam of the real stream parsers: for short byte strings every chunking is executed (plus empty chunks and Pending between chunks), longer ones get seeded chunkings, and a transport error is injected at seeded chunk positions. Oracle: independent reference parse of the concatenated bytes - exactly the encoded records in order, clean end iff well-formed, an error (never a clean end, never a wrong record) for trailing partial data / undecodable record / transport error, never a panic. Enumeration is complete per byte string for n <= 11 (quick) / 14 (thorough); byte strings themselves are sampled.",
         "design_ref": "DESIGN.md section 4, C17",
